@@ -74,6 +74,54 @@ type Term struct {
 	k       uint64
 	name    string
 	id      int
+	sup     []*Term // support (variables), computed lazily; supMany if more than maxSupport
+	supDone bool
+	supMany bool
+}
+
+const maxSupport = 2
+
+// Support returns the variables t depends on, or many=true if there are more than maxSupport.
+func (t *Term) Support() (vars []*Term, many bool) {
+	if t.supDone {
+		return t.sup, t.supMany
+	}
+	switch t.op {
+	case OpConst, OpFConst:
+	case OpVar:
+		t.sup = []*Term{t}
+	default:
+		for _, c := range [3]*Term{t.a, t.b, t.c} {
+			if c == nil {
+				continue
+			}
+			cv, cm := c.Support()
+			if cm {
+				t.supMany = true
+				break
+			}
+			for _, v := range cv {
+				found := false
+				for _, x := range t.sup {
+					if x == v {
+						found = true
+					}
+				}
+				if !found {
+					t.sup = append(t.sup, v)
+				}
+			}
+			if len(t.sup) > maxSupport {
+				t.supMany = true
+				break
+			}
+		}
+		if t.supMany {
+			t.sup = nil
+		}
+	}
+	t.supDone = true
+	return t.sup, t.supMany
 }
 
 func (t *Term) IsConst() bool { return t.op == OpConst || t.op == OpFConst }
